@@ -59,6 +59,26 @@ CHECKS.update({
              ref="4 C10", note=LEVEL_NOTE_REF + " Known findings D5i/D5ii (open) are replayed strictly on every run and reported as KNOWN-FINDING lines."),
 })
 
+LEVEL_NOTE_ENGINE = (LEVEL_NOTE_REF + " The engine is observed through public API only: a counting Timeout implementation (expiry at poll k) and a tracing Subscriber "
+                     "that records the engine's own 'start depth' event; if that log line disappears the clauses that need pass boundaries are dropped, never alarmed on.")
+CHECKS.update({
+ "C07": dict(tech="stateful API fuzzing (proptest op scripts + directed boundary families) in a checked build profile (debug assertions + overflow checks); oracle = no trap",
+             text="Exploration: generated scripts over every operation family the property names (construct via parser/builder incl. pawns on back ranks and clocks up to u16::MAX, generate/mask/iterate/remove, apply, hash, print in every format, perft, search with counting timeouts, repetition table, book descent, bitboard iterators with n up to usize::MAX) plus directed boundary families (18-entry capacity positions, 218-move position, 16-bit clocks, >255 repetitions, 65536+ cheap deepening passes) run in a profile where unchecked fast paths, debug assertions and arithmetic overflow trap. Any panic, abort or signal is a violation.",
+             ref="4 C07", note="Trusted base: rustc's debug-assertion / overflow-check instrumentation and std's unsafe-precondition checks; proptest. UB that neither traps in the checked profile nor crashes is not observable (stated in DESIGN.md section 7)."),
+ "C11": dict(tech="fault/schedule enumeration over the timeout-expiry instant k with a counting Timeout (every k up to the second pass boundary, boundaries +-3, generated k), legality oracle from the reference model",
+             text="Exploration: for each generated position one instrumented run yields the poll counts at which deepening passes start; the search is then re-run with the limit expiring at poll k for every k up to min(s_2, 300/800), around every boundary and at generated values. For each k: returns within a poll bound after expiry, no panic, move None or reference-legal, None iff no legal move, Some once the first pass finished, Some monotone in k.",
+             ref="4 C11", note=LEVEL_NOTE_ENGINE),
+ "C12": dict(tech="property-based testing with constructed mating nets and harvested positions; oracle = reference enumeration of mating moves",
+             text="Exploration: positions with and without a mate in one (mating-net constructors, sparse placements, playouts; half-move clock at 96..100; mated position pre-filled twice in the repetition table) are searched with the limit at the first/second pass boundary and without limit; a mating move with the mover's MateIn(1) score must come back when one exists, the score must never appear otherwise, and it must always come with a move that mates.",
+             ref="4 C12", note=LEVEL_NOTE_ENGINE),
+ "C13": dict(tech="metamorphic testing: colour-mirror relation on scores, depth by depth under each side's own pass boundaries",
+             text="Exploration: each generated position without a promotion move at the root and its colour mirror are searched to every depth both complete within the poll cap; the committed scores must be negations of each other (mate-in-n swaps colour). Moves are not compared.",
+             ref="4 C13", note=LEVEL_NOTE_ENGINE),
+ "C15": dict(tech="model-based (stateful) testing of the built plugin through its stable ABI: generated set-board / move / shuffle / evaluate sequences against the reference position and an occurrence map",
+             text="Exploration: libchess_bot.so built from the working tree is driven through chess_api::ChessEngine with generated op lists including reversible manoeuvres that create third and later occurrences, illegal triples, set_board, evaluate with counting timeouts, and a directed >255-repetition shuffle. Validity, reported board, threefold flag (exactly on the third occurrence under the calibrated counting reading) and legality of the proposed move are compared with the model.",
+             ref="4 C15", note=LEVEL_NOTE_REF + " abi_stable's loader; the occurrence-counting reading is calibrated at run start rather than assumed."),
+})
+
 NOT_YET = {
 }
 
